@@ -136,7 +136,7 @@ def handleExpr (op : String) (args : List Sexp) : Option Sexp :=
   | "chain_expand", [p, r, o] => do pure (replyE (chainExpand (← wfExpr? p) (← boolOf? r) (← optVarsOf? o)))
   | "fraction_expand", [p] => do pure (replyE (fractionExpand (← wfExpr? p)))
   | "bayes_expand", [p] => do pure (replyE (bayesExpand (← wfExpr? p)))
-  | "contract", [e] => do pure (replyE (contract (← wfExpr? e)))
+  | "contract", [e] => do pure (okE (contract (← wfExpr? e)))
   | "recursive_contract", [e] => do pure (replyE (recursiveContract (← wfExpr? e)))
   | "markov", [e] => do pure (replyB (hasMarkovPostcondition (← wfExpr? e)))
   | "den", [e, env, s, s'] => do
